@@ -650,7 +650,7 @@ def self_test():
 
 
 SUBCHECKS = [
-    SubCheck("disk_embedding", embed_case(), fn_embed, quick=3200, thorough=8000),
+    SubCheck("disk_embedding", embed_case(), fn_embed, quick=2400, thorough=8000),
     SubCheck("non_disk_rejected", reject_case(), fn_reject, quick=600, thorough=2000),
     SubCheck("large_disks", large_case(), fn_embed, quick=16, thorough=12, watchdog=(180, 600)),
 ]
